@@ -246,3 +246,35 @@ Example C15_nonvacuous_size :
 Proof. vm_compute. auto. Qed.
 Example C15_eps_is_the_double : F2Q 0x1.ad7f29abcaf48p-24%float = eps_impl.
 Proof. vm_compute. reflexivity. Qed.
+
+(* ---------------------------------------------------------------- 4. round 4: the nudge as the code computes it *)
+Local Open Scope Q_scope.
+(* search_space.py:77 adds 1e-7 to the upper bound in binary64.  Whenever that addition returns the upper bound itself
+   (eff_eps = 0: every |upper| >= 2^30) the grid is arange(lower, upper, precision): *)
+Theorem C15_without_nudge_upper_excluded : forall l u p i x, 0 < p ->
+  nth_error (grid_e 0 l u p) i = Some x -> x < u.
+Proof. exact without_nudge_upper_excluded. Qed.
+Print Assumptions C15_without_nudge_upper_excluded.
+
+Theorem C15_without_nudge_len_multiple : forall l u p k, 0 < p -> (0 <= k)%Z -> u - l == inject_Z k * p ->
+  grid_len 0 l u p = Z.to_nat k.
+Proof. exact without_nudge_len_multiple. Qed.
+Print Assumptions C15_without_nudge_len_multiple.
+
+(* so "ends on the bound itself when the range is a multiple of the precision" is FALSE of the code as written:
+   SearchSpace([[0.0], [2e9]], [1e9]) is accepted, its range is exactly 2 steps, and its grid is {0, 1e9}.
+   (An Example, not a Theorem: the witness is computed with Coq's primitive binary64 operations.) *)
+Example C15_grid_hits_upper_refuted_far_from_origin : exists l u p : float,
+  check_bounds_F [[l]; [u]] [p] = Ok /\ F2Q u - F2Q l == inject_Z 2 * F2Q p /\ (0 < F2Q p) /\
+  nudge_absorbed u = true /\ eff_eps u == 0 /\
+  grid_len (eff_eps u) (F2Q l) (F2Q u) (F2Q p) = 2%nat /\
+  forall x, In x (grid_e (eff_eps u) (F2Q l) (F2Q u) (F2Q p)) -> x < F2Q u.
+Proof. exact hits_upper_refuted_far_from_origin. Qed.
+
+(* the threshold: 1e-7 survives next to 2^29 (as one ulp = 2^-23) and is absorbed from 2^30 on (below -2^30 on the
+   negative side); the constant is the double nearest 1e-7; next to 1.0 the surviving nudge is 1e-7 up to rounding *)
+Example C15_nudge_threshold :
+  nudge_absorbed 0x1p+29%float = false /\ nudge_absorbed 0x1p+30%float = true /\
+  nudge_absorbed (-0x1p+30)%float = false /\ nudge_absorbed (-0x1p+31)%float = true /\
+  F2Q eps_F = eps_impl /\ eff_eps 1%float - eps_impl < 1 # 4503599627370496 /\ eps_impl - eff_eps 1%float < 1 # 4503599627370496.
+Proof. vm_compute. repeat split; reflexivity. Qed.
